@@ -6,7 +6,7 @@ from ..distcases import run_c14_case
 
 ID = 'C14'
 LEVEL = 'exploration'
-QUICK_SCALE = 5      # the quick tier was enlarged by this factor after MIN_OBS['quick'] was measured
+QUICK_SCALE = 10      # the quick tier was enlarged by this factor after MIN_OBS['quick'] was measured
 RULE = (
     "One run = one simulated world: scripted server, the real client 'me' logged in with a scanned share (1-3 "
     "shared directories, modes everyone/friends/users, 2-6 files each, names from a per-run word pool with "
@@ -58,7 +58,7 @@ MIN_OBS = {
                  'runs_with_many_proposals': 900},
 }
 SHARD_TIMEOUT = {'quick': 600, 'thorough': 5400}
-SIZES = {'quick': 1500, 'thorough': 200000}
+SIZES = {'quick': 3000, 'thorough': 200000}
 WHAT_FAILS = {
     'forward:': 'a search request was not passed on exactly once to exactly the current children',
     'own-search:forwarded': 'a request carrying the own user name was passed on to the children',
